@@ -1,6 +1,6 @@
 #!/bin/sh
 # tools/run_all.sh [parallelism]: run every registered quick (or $VERIF_TIER) check on the current tree; summary per property.
-cd /verif
+cd "$(dirname "$0")/.."
 P=${1:-4}
 mkdir -p out/all
 ids=$(python3 -c "import json;print(' '.join(c['property_id'] for c in json.load(open('MANIFEST.json'))['checks']))")
